@@ -59,6 +59,8 @@ def _level(r: random.Random, engine: str, depth: int, nlevels: int, lowmut: bool
         lv["lsc"] = {"kind": "FitnessSteadiness", "n": r.choice([1, 2, 3]), "dev": r.choice([1e-9, 1e-2, 10.0])}
     elif x < 0.95 and depth > 0:
         lv["lsc"] = {"kind": "DontRun"}
+    elif x < 0.98:
+        lv["lsc"] = {"kind": "DemeTarget", "target": r.choice([0.01, 0.1, 1.0]), "n": r.choice([2, 3, 5])}
     else:
         lv["lsc"] = {"kind": "DontStop"}
     return lv
@@ -77,6 +79,8 @@ def random_spec(r: random.Random, idx: int) -> dict:
             "idlecheck": all(float(lv.get("p_mutation", 1.0)) >= 1.0 for lv in levels)}
     if r.random() < 0.15:
         spec["retarget_problem"] = True
+    if r.random() < 0.15:
+        spec["bare_options"] = True
     if r.random() < 0.4:
         spec["reports"] = True
     if r.random() < 0.3:
